@@ -1,6 +1,7 @@
 import TongoProofs.Lemmas.CellHashTree
 import TongoProofs.Lemmas.CellTable
 import TongoProofs.Lemmas.HashMemo
+import TongoProofs.Lemmas.CellNoPanic
 import TongoGen.LevelMask
 /-! Property C02 — cell hash, depth and level follow the TON representation-hash definition.
 
@@ -111,32 +112,84 @@ theorem no_panic_wf (H : List UInt8 → List UInt8) (c : Cell) (hwf : Spec.WFExo
       rw [e] at e'; cases e'
       rw [(hm l hl).1, (hm l hl).2]; exact ⟨rfl, rfl⟩
 
-/-- a parent whose child is a pruned branch of mask 1 carrying only its two header bytes -/
-def shortPruned : Cell :=
-  .mk tyOrdinary 1 [] [.mk tyPruned 1 (Bits.natToBits 16 0x0101) []]
+/-- **No panic on any tree with 3-bit masks.** Every Go cell buffer spans the full capacity of 1023 bits (128 bytes:
+parsed cells since the repair of `setTopUppedArray`, `NewCell`, `NewCellExotic`), and a pruned branch announces at most
+3 stored hashes and depths: `2 + 3·32 ≤ 128`, `2 + 32·3 + 2·2 + 2 ≤ 128`. So the slice expressions of
+`immutableCell.Hash/Depth` stay in range whatever the cell types, data lengths and refs are: hashing a tree whose level
+masks are ≤ 7 returns a value or `ErrDepthIsTooBig`, never a panic — without any well-formedness of exotic cells. -/
+theorem no_panic_any (H : List UInt8 → List UInt8) (c : Cell) (hm : Spec.wfMasks c = true) :
+    (Cell.info H c).isPanic = false ∧ (Cell.reprHash H c).isPanic = false ∧
+    ∀ info, Cell.info H c = .ok info → ∀ l, (info.hashAt l).isPanic = false ∧ (info.depthAt l).isPanic = false := by
+  obtain ⟨hnp, hok⟩ := info_no_panic H c hm
+  have hlv : ∀ info, Cell.info H c = .ok info → ∀ l, (info.hashAt l).isPanic = false ∧ (info.depthAt l).isPanic = false := by
+    intro info e l
+    have io := hok info e
+    constructor
+    · cases h : info.hashAt l with
+      | panic p => exact absurd h (BocHash.hashAt_no_panic info io l p)
+      | ok _ => rfl
+      | err _ => rfl
+    · cases h : info.depthAt l with
+      | panic p => exact absurd h (BocHash.depthAt_no_panic info io l p)
+      | ok _ => rfl
+      | err _ => rfl
+  refine ⟨?_, ?_, hlv⟩
+  · cases h : Cell.info H c with
+    | panic p => exact absurd h (hnp p)
+    | ok _ => rfl
+    | err _ => rfl
+  · simp only [Cell.reprHash]
+    cases h : Cell.info H c with
+    | panic p => exact absurd h (hnp p)
+    | err _ => rfl
+    | ok info =>
+      simp only [Outcome.bind_ok]
+      exact (hlv info h 3).1
 
-/-- **Without well-formedness the slice operations panic** (witness, relevant to C07): hashing `shortPruned` makes
-the parent read the stored depth of its child at `bitsBuf[34:]` of a 2-byte buffer. The witness violates `WFExotic`
-only in the length of the pruned branch. -/
-theorem panic_without_wf (H : List UInt8 → List UInt8) :
-    (Cell.reprHash H shortPruned).isPanic = true ∧ Spec.wfExotic shortPruned = false := by
-  constructor
-  · have hlen : (parsedBuf (Bits.natToBits 16 0x0101)).length = 2 := by
-      rw [parsedBuf, bitsToBytes_length]; rfl
-    simp only [Cell.reprHash, shortPruned, Cell.info, Cell.infoList, Outcome.bind_ok]
-    rw [computeInfo_pruned H 1 _ _ (by omega)]
-    simp only [Outcome.bind_ok, pure]
-    generalize hb : parsedBuf (Bits.natToBits 16 0x0101) = buf at *
-    generalize H _ = hh
-    simp only [computeInfo, show LevelMask.level 1 = 1 from by decide +kernel,
-      show tyOrdinary ≠ tyPruned from by decide, if_false]
-    simp only [show List.range (1+1) = [0,1] from rfl, List.foldlM_cons]
-    simp [levelStep, LevelMask.isSignificant, HashInfo.depthAt, LevelMask.apply,
-      show LevelMask.hashIndex 0 = 0 from by decide, show LevelMask.hashIndex 1 = 1 from by decide, hlen,
-      tyOrdinary, tyPruned, tyMerkleProof, tyMerkleUpdate]
+/-- a pruned branch of mask 1 carrying only its two header bytes -/
+def shortPrunedChild : Cell := .mk tyPruned 1 (Bits.natToBits 16 0x0101) []
+/-- an ordinary parent over it -/
+def shortPruned : Cell := .mk tyOrdinary 1 [] [shortPrunedChild]
+
+/-- what `newImmutableCell` keeps for `shortPrunedChild` -/
+def shortInfo (H : List UInt8 → List UInt8) : HashInfo :=
+  { ty := tyPruned, mask := 1, buf := [1, 1] ++ List.replicate 126 0,
+    hashes := [H (reprNoRefs tyPruned (Bits.natToBits 16 0x0101) 0 (LevelMask.apply 1 (LevelMask.level 1)) ++ [] ++ [])],
+    depths := [0] }
+
+/-- **A malformed pruned branch is hashed from zero padding** (witness; what `panic_without_wf` turned into when the
+buffers were widened): the two-byte pruned branch violates `WFExotic`, hashing its parent succeeds, and the "stored"
+level-0 hash and depth the parent uses are the zero bytes that follow the data in the 128-byte buffer — not anything
+the cell carries. Such cells are outside the property's quantifier and are rejected by the repaired BOC parser; the
+definition (`Spec.storedHash`, reading the data only) gives the empty string there, so `impl_eq_spec` does need its
+size hypothesis. -/
+theorem short_pruned_reads_padding (H : List UInt8 → List UInt8) :
+    Spec.wfExotic shortPruned = false ∧ (Cell.reprHash H shortPruned).isPanic = false ∧
+    (∃ info, Cell.info H shortPrunedChild = .ok info ∧
+      info.hashAt 0 = .ok (List.replicate 32 0) ∧ info.depthAt 0 = .ok 0) ∧
+    Spec.hashAt H shortPrunedChild 0 = [] := by
+  have hbuf : parsedBuf (Bits.natToBits 16 0x0101) = [1, 1] ++ List.replicate 126 0 := by decide +kernel
+  have hb2 : Bits.bitsToBytes (Bits.natToBits 16 0x0101) = [1, 1] := by decide +kernel
+  have hchild : Cell.info H shortPrunedChild = .ok (shortInfo H) := by
+    simp only [shortPrunedChild, Cell.info, Cell.infoList, Outcome.bind_ok]
+    rw [computeInfo_pruned H 1 _ _ (by omega), hbuf]
     rfl
-  · decide
-
+  have e0 : LevelMask.hashIndex (LevelMask.apply 1 0) = 0 := by decide
+  have e2 : LevelMask.hashIndex 1 = 1 := by decide
+  have h00 : (shortInfo H).hashAt 0 = .ok (List.replicate 32 0) := by
+    simp only [shortInfo, HashInfo.hashAt, e0, e2, if_true]
+    rw [if_pos (by decide), if_pos (by decide +kernel)]
+    decide +kernel
+  have h0d : (shortInfo H).depthAt 0 = .ok 0 := by
+    simp only [shortInfo, HashInfo.depthAt, e0, e2, if_true]
+    rw [if_pos (by decide), if_pos (by decide +kernel)]
+    decide +kernel
+  have hspec : Spec.hashAt H shortPrunedChild 0 = [] := by
+    simp only [shortPrunedChild, Spec.hashAt, Spec.hashLevel, Spec.hashAtL, Spec.depthAtL, Spec.storedHash, hb2,
+      show Spec.level 1 = 1 from by decide]
+    rw [if_pos (by decide)]
+    decide
+  exact ⟨by decide, (no_panic_any H shortPruned (by decide)).2.1, ⟨_, hchild, h00, h0d⟩, hspec⟩
 
 /-- **Table refines tree.** `Table.infos` — the linear, row-by-row evaluation on a bag-of-cells table that the
 compiled model driver runs against the Go code on every check — returns for every row exactly `Cell.info` of the
